@@ -94,7 +94,7 @@ def run(ctx, facts):
     m = seedmix(ctx, facts, [POM + "hash_set"])
     ctx.floor("C10 generator constructions in hash_set", m, 1)
     e = C11.exit_rule(ctx, facts)
-    ctx.floor("C10 race loop exits", e, 3)
+    ctx.floor("C10 race loop exits", e, 2)
     C11.store_rules(ctx, facts)
     C11.store_track(ctx, facts)
     C11.signature_rules(ctx, facts)
